@@ -272,13 +272,13 @@ MANIFEST_TEXT = {
         "technique": "Lean 4 inverse-function proof (token-wise, two decoder passes) on executable model + exhaustive/differential correspondence + read-back oracle on the real code",
     },
     "C07": {
-        "text": "Machine-checked over the model of CramParser::parse + LineParser: parsing is total, failing only with one of the five line_parser errors (C07_no_crash); for every indentation >= 1 and every document built from titles, blank lines, # comments (also between the lines of a test), commands with > continuations, expectation lines (incl. empty / whitespace-only) and one [n] line per test, parse(render d) = exactly the tests written: one per `$ ` line, in order, command lines, expectation texts with only the indentation removed, exit code, 1-based line, title = last title line since the previous command, Cram defaults (C07_wellformed); for EVERY text that parses, each command/expectation text stems from an indented non-# line (C07_comments_inert, C07_comment_line_skipped) and every test carries default_cram, the document default_cram (C07_defaults, C07_defaults_values). PARTIAL: the title is the nearest preceding title line only when each title is followed by one command (C07_title_nearest_partial; witness T/$ a/$ b: C07_title_nearest_fails_on_witness); indented lines above the first command of a block are adopted by the next command instead of being rejected (C07_orphan_exit_code_fails_on_witness, C07_orphan_expectation_fails_on_witness). Tie to code: ~400k exhaustive small documents over a single-space-neighbour line alphabet + AST-directed and raw random documents through the real CramParser, all fields compared.",
+        "text": "Machine-checked over the model of CramParser::parse + LineParser: parsing is total, failing only with one of the six line_parser errors (C07_no_crash); for every indentation >= 1 and every document built from titles, blank lines, # comments (also between the lines of a test), commands with > continuations, expectation lines (incl. empty / whitespace-only) and one [n] line per test, parse(render d) = exactly the tests written: one per `$ ` line, in order, command lines, expectation texts with only the indentation removed, exit code, 1-based line, title = last title line since the previous command, Cram defaults (C07_wellformed); for EVERY text that parses, the tests are in order-preserving one-to-one correspondence with the indented `$ ` lines (C07_one_test_per_command), each command/expectation text stems from an indented non-# line (C07_comments_inert, C07_comment_line_skipped) and every test carries default_cram, the document default_cram (C07_defaults, C07_defaults_values). PARTIAL: the title is the nearest preceding title line only when each title is followed by one command (C07_title_nearest_partial; witness T/$ a/$ b: C07_title_nearest_fails_on_witness)). For EVERY text, an indented expectation/[n]/> line while no command is open makes the document fail (C07_orphan_lines_rejected; regressions C07_orphan_exit_code_regression, C07_orphan_expectation_regression). Tie to code: ~400k exhaustive small documents over a single-space-neighbour line alphabet + AST-directed and raw random documents through the real CramParser, all fields compared.",
         "design_ref": "DESIGN.md §6 C07",
-        "note": "Trusted: Lean kernel + 3 standard axioms, the correspondence harness, statement reading. Expectation parsing is a parameter (C08 covers it). Oracle classes of the deviations: C07:title-not-nearest, C07:orphan-exit-code-adopted, C07:orphan-expectation-adopted.",
+        "note": "Trusted: Lean kernel + 3 standard axioms, the correspondence harness, statement reading. Expectation parsing is a parameter (C08 covers it). Open deviation: C07:title-not-nearest (second command below a title has title \"\"; intended upstream). Repaired by fix: 67abd12 (indented lines above a command were adopted by the next command; oracle class now C07:orphan-line-accepted).",
         "technique": "Lean 4 theorems on an executable model of the Cram/line parser (round trip for documents by construction + loop invariants for all texts) + exhaustive differential correspondence",
     },
     "C06": {
-        "text": "Machine-checked for all documents: the Markdown parser model never reaches a panic (every slice of extract_code_block_start is on a character boundary, every line_index-1 is defined: C06_no_crash); the tokenizer always runs to the end and its tokens partition the document - every line in exactly one token, in order, with its own index, closing line = first line starting with the opening fence (C06_tokens_cover); unterminated front-matter, foreign and scrut blocks hold all remaining lines (C06_unterminated_*). PARTIAL: 'parse(render d) = d.tests' for the generator AST (count, order, shell expression, expectations, exit code, configuration, line number, title) is decided by the by-construction oracle on generated documents and all their line-prefixes, not proved. Tie to code: 1.04M documents per quick run (exhaustive <= 5 lines over a 15-line alphabet, exhaustive fence lines, AST-directed, prefixes, malformed) through the real MarkdownParser with 0 disagreements. Four stricter readings found by this check (C06:state-leak, C06:bare-long-fence, C06:info-string-whitespace, C06:config-dropped) were repaired by fix: commits; their witnesses stay in the harness as regression cases and as closed Lean examples.",
+        "text": "Machine-checked for all documents: the Markdown parser model never reaches a panic (every slice of extract_code_block_start is on a character boundary, every line_index-1 is defined: C06_no_crash); the tokenizer always runs to the end and its tokens partition the document - every line in exactly one token, in order, with its own index, closing line = first line starting with the opening fence (C06_tokens_cover); unterminated front-matter, foreign and scrut blocks hold all remaining lines (C06_unterminated_*). For every document made of prose lines (anything that is not a fence start or ---) and scrut blocks (any fence length, optional {config}, comments, $ line, > lines, expectation lines, optional exit code) the parser yields exactly one test per block, in order, with the shell expression, expectation texts, exit code, configuration, 1-based line number of the $ line and title as written (C06_wellformed, C06_wellformed_lines, C06_wellformed_cores); inserting a prose line changes neither count, order nor content (C06_prose_inert). PARTIAL: front-matter, foreign blocks between items, blocks without command and exit codes between expectation lines are outside the proved grammar; for them 'parse(render d) = d.tests' is decided by the by-construction oracle on generated documents and all their line-prefixes. Tie to code: 1.04M documents per quick run (exhaustive <= 5 lines over a 15-line alphabet, exhaustive fence lines, AST-directed, prefixes, malformed) through the real MarkdownParser with 0 disagreements. Four stricter readings found by this check (C06:state-leak, C06:bare-long-fence, C06:info-string-whitespace, C06:config-dropped) were repaired by fix: commits; their witnesses stay in the harness as regression cases and as closed Lean examples.",
         "design_ref": "DESIGN.md §6 C06",
         "note": "Trusted: Lean kernel + 3 standard axioms, the correspondence harness, statement reading. Expectation grammar (C08), YAML (C17), config layering (C16) and \\p{L} are parameters fed from the real code per case. Defects repaired by fix: commits a8558a7, 2f2d0a7, 0557cd9, 41f3a85 (before this check) and d36f745, d82a4b7, 0c1f918 (found by it).",
         "technique": "Lean 4 theorems on an executable model of tokenizer+parser+LineParser + differential correspondence (exhaustive small scope, AST-directed by-construction oracle, prefixes, malformed)",
@@ -364,7 +364,7 @@ MANIFEST_TEXT = {
 }
 
 # properties whose machinery is merged but being brought up to date with fix commits: not claimed yet
-PENDING = {"C06", "C07", "C13", "C17", "C08"}
+PENDING = {"C13", "C17", "C08"}
 
 WIP = "not yet claimed: model, theorems and correspondence for this property are still being built (see DESIGN.md §11); nothing is asserted about it"
 NOT_APPLICABLE = [{"property_id": "C%02d" % i, "reason": WIP} for i in range(1, 21) if "C%02d" % i not in PROPS or "C%02d" % i in PENDING]
